@@ -84,7 +84,7 @@ def run(v):
     out = os.path.join(C.WORK, PID)
     fresh_out(out)
     if v.tier == "quick":
-        args = ["-n", "5", "-points", "60"]
+        args = ["-n", "5", "-points", "45"]
     else:
         args = ["-n", "20", "-kstep", "1"]
     rc, o = C.sh([C.harness_bin(HARNESS), "crash", "-mode", "kill", "-out", out, "-seed", str(v.seed)] + args, timeout=20000)
@@ -109,7 +109,7 @@ def run(v):
                 "litestream code (script kept on one OS thread because strace counts injections per thread and per call) is "
                 "SIGKILLed on entry to the k-th openat/write/pwrite64/fsync/fdatasync/rename*/unlink*/ftruncate/"
                 "copy_file_range/sendfile; quick: 5 scripts (basic; republish = publishes over existing final names; retention; reset = ResetLocalState on the open DB then syncs; resetfetch = reset + baseline "
-                "fetch + syncs + uploads; retention), about 60 kill points spread "
+                "fetch + syncs + uploads; retention), about 45 kill points spread "
                 "evenly over the recorded K mutating calls of each; thorough: every kill point of 20 scripts (basic, reset, "
                 "resetfetch, republish, retention, baseline, rerestore, checkpoint, follow, sidecar x 2 parameter draws). After each kill: every *.ltx must "
                 "decode and checksum (ltx Decoder.Verify), restore output must be absent or a database in an acknowledged "
